@@ -34,8 +34,14 @@ FUNCS = {
 
 CALL = re.compile(r'\b(' + '|'.join(sorted(WORDS, key=len, reverse=True)) + r')\s*\(')
 
+# `if (self is obj) { return; }` at the head of a *_Assign (fix a3140e4): assign(x, x) must not reach the Clear
+SELF_GUARD = re.compile(r'\bif\s*\(\s*self\s+is\s+obj\s*\)\s*\{?\s*return\s*;')
+
 def profile_of(body, self_name):
-    return [m.group(1) for m in CALL.finditer(body)]
+    calls = [(m.start(), m.group(1)) for m in CALL.finditer(body)]
+    g = SELF_GUARD.search(body)
+    if g: calls.append((g.start(), 'return_if_self_is_obj'))
+    return [w for _, w in sorted(calls)]
 
 def gen_own(repo):
     rows = []
